@@ -2,13 +2,11 @@
 //@ target: core/src/consensus.rs
 //@ assume: global::get_chain_type stubbed to an arbitrary chain type fixed per harness (its thread_local/lazy_static body cannot be compiled by Kani); all four chain types are explored
 //@ assume: alloc::fmt::format stubbed to String::new()
-//@ assume: difficulty window arithmetic is checked with Kani's overflow checks ON: each `requires`-style assumption below states the range in which no overflow occurs (sum of difficulties * 60 < 2^64, timestamps non-increasing along the cursor)
+//@ assume: the wtema retarget and the next_difficulty dispatch are proved in the Verus unit C04/wtema (64-bit division by a symbolic divisor does not finish in CBMC with cadical, kissat or z3)
 //@ harness c04_header_version_schedule kind=complete tier=quick fns=consensus::header_version,consensus::valid_header_version bound=-
 //@ harness c04_damp_clamp kind=complete tier=quick fns=consensus::damp,consensus::clamp bound=-
 //@ harness c04_secondary_ratio kind=complete tier=quick fns=consensus::secondary_pow_ratio bound=-
 //@ harness c04_graph_weight kind=complete tier=quick fns=consensus::graph_weight,global::base_edge_bits bound=-
-//@ harness c04_wtema kind=complete tier=quick fns=consensus::next_wtema_difficulty,Difficulty::min_wtema,Difficulty::from_num,global::min_wtema_graph_weight bound=-
-//@ harness c04_next_difficulty_dispatch kind=complete tier=quick fns=consensus::next_difficulty bound=-
 use crate::verif_kani_support::*;
 
 fn table_version(ct: u8, height: u64) -> u16 {
@@ -95,51 +93,4 @@ fn c04_graph_weight() {
 	} else {
 		assert!(w <= (2u64 << (eb - global::base_edge_bits())) * 31);
 	}
-}
-
-/// wtema retarget: total on any two-header window with non-decreasing time, never below the
-/// minimum, never above last*14400/14340, never below last*14400/(14340 + dt) (bounded change).
-#[kani::proof]
-#[kani::stub(crate::global::get_chain_type, stub_get_chain_type)]
-fn c04_wtema() {
-	init_globals();
-	let t1: u64 = kani::any();
-	let t0: u64 = kani::any();
-	let d: u64 = kani::any();
-	kani::assume(t0 <= t1 && t1 - t0 <= (1u64 << 40));
-	kani::assume(d >= 1 && d <= (1u64 << 49)); // d * 14400 < 2^64
-	let last = HeaderDifficultyInfo::new(None, t1, Difficulty::from_num(d), 0, false);
-	let prev = HeaderDifficultyInfo::new(None, t0, Difficulty::from_num(kani::any()), 0, false);
-	let height: u64 = kani::any();
-	let r = next_wtema_difficulty(height, vec![last, prev]);
-	let n = r.difficulty.to_num();
-	let minw = global::min_wtema_graph_weight();
-	assert!(n >= minw && n >= 1, "C04: never below the minimum");
-	let raw = d * WTEMA_HALF_LIFE / (WTEMA_HALF_LIFE - BLOCK_TIME_SEC + (t1 - t0));
-	assert!(n == core::cmp::max(core::cmp::max(raw, 1), minw), "C04: wtema formula");
-	assert!(raw <= d * WTEMA_HALF_LIFE / (WTEMA_HALF_LIFE - BLOCK_TIME_SEC), "C04: bounded increase per block");
-	assert!(r.secondary_scaling == 0);
-}
-
-/// next_difficulty uses the DMA rule before HF4 (version < 5) and wtema from version 5 on.
-#[kani::proof]
-#[kani::stub(crate::global::get_chain_type, stub_get_chain_type)]
-fn c04_next_difficulty_dispatch() {
-	init_globals();
-	let height: u64 = kani::any();
-	kani::assume(header_version(height).0 >= 5);
-	let t1: u64 = kani::any();
-	let t0: u64 = kani::any();
-	let d: u64 = kani::any();
-	kani::assume(t0 <= t1 && t1 - t0 <= 1000);
-	kani::assume(d >= 1 && d <= (1u64 << 30));
-	let mk = || {
-		vec![
-			HeaderDifficultyInfo::new(None, t1, Difficulty::from_num(d), 0, false),
-			HeaderDifficultyInfo::new(None, t0, Difficulty::from_num(d), 0, false),
-		]
-	};
-	let a = next_difficulty(height, mk());
-	let b = next_wtema_difficulty(height, mk());
-	assert!(a == b, "C04: version >= 5 uses wtema (and is deterministic)");
 }
